@@ -122,6 +122,44 @@ theorem snapping_is_not_affine :
     mix (1 - 3 * h) (0 : Rat) 1 - 2 * mix (1 - 2 * h) 0 1 + mix (1 - h) 0 1 = 0 := by
   decide +kernel
 
+/-- T4.  One interpolator used repeatedly: in EVERY history of `interpolate` calls and in-place edits of the systems
+    that were handed out, every call `interpolate alpha` returns `F system0 system1 alpha`, and the interpolator's
+    own two systems are never changed — for the code's rule (a fresh object per call). -/
+theorem interpolate_is_a_function {S : Type} (F : S → S → K → S) :
+    ∀ (ops : List (IOp K S)) (st : IState K S),
+      (∀ p ∈ (runFresh F ops st).1, p.2 = F st.s0 st.s1 p.1) ∧
+      (runFresh F ops st).2.s0 = st.s0 ∧ (runFresh F ops st).2.s1 = st.s1
+  | [], st => ⟨fun p hp => by simp [runFresh] at hp, rfl, rfl⟩
+  | .interp α :: t, st => by
+    obtain ⟨h1, h2, h3⟩ := interpolate_is_a_function F t { st with heap := st.heap ++ [F st.s0 st.s1 α] }
+    refine ⟨?_, h2, h3⟩
+    intro p hp
+    simp only [runFresh, List.mem_cons] at hp
+    rcases hp with rfl | hp
+    · rfl
+    · exact h1 p hp
+  | .mutate i f :: t, st => by
+    obtain ⟨h1, h2, h3⟩ := interpolate_is_a_function F t { st with heap := st.heap.modify i f }
+    exact ⟨fun p hp => h1 p (by simpa [runFresh] using hp), h2, h3⟩
+
+/-- T4'.  Counterexample for the memoised rule (the cache hands out the stored object): interpolate 0, the caller
+    edits the returned system, interpolate 0 again — the second call returns the edited system; the code's rule
+    returns the interpolation both times. -/
+theorem memoised_interpolate_is_aliased :
+    let F : Nat → Nat → Nat → Nat := fun a b α => a + α * b
+    let st : IState Nat Nat := { s0 := 5, s1 := 7, heap := [], cache := [] }
+    let hist : List (IOp Nat Nat) := [.interp 0, .mutate 0 (· + 100), .interp 0, .interp 2]
+    (runMemo F hist st).1 = [(0, 5), (0, 105), (2, 19)] ∧ (runFresh F hist st).1 = [(0, 5), (0, 5), (2, 19)] := by
+  decide +kernel
+
+/-- non-vacuity of T4: a history with repeated alphas and edits of earlier results, at `Rat` with the real `mix` -/
+example :
+    let F : Rat → Rat → Rat → Rat := fun a b α => mix α a b
+    let st : IState Rat Rat := { s0 := 2, s1 := 6, heap := [], cache := [] }
+    (runFresh F [.interp (1/2), .mutate 0 (fun _ => 0), .interp (1/2), .interp 1, .mutate 2 (· * 3), .interp 1] st).1
+      = [(1/2, 4), (1/2, 4), (1, 6), (1, 6)] := by
+  decide +kernel
+
 /-- Only the matrices present in BOTH systems survive `__init__` (the others are dropped with a warning). -/
 theorem prepare_keys [DecidableEq K] (s : Sys K) (otherKeys : List Name) (Rnew : List Vec3) (k : Name) :
     k ∈ (prepare s otherKeys Rnew).mats.map (·.1) ↔ k ∈ s.mats.map (·.1) ∧ k ∈ otherKeys := by
